@@ -19,7 +19,7 @@ HOOK_COMMITS = []
 PROPS = {
     "C01": dict(
         modules=["Whawty.Props.C01", "Whawty.Props.GenFiles"],
-        suites=[("hdrv", "c01"), ("overlay", "v11s")],
+        suites=[("hdrv", "c01"), ("hdrv", "c15i"), ("overlay", "v11s")],
         level_text="Store operations are pure functions on a directory map following store.go / userhash.go branch by "
                    "branch; write-then-authenticate (verdict = digest equality with the last written password, via the "
                    "proved record and base64 round trips), frame theorems for every other user, set-admin / remove "
